@@ -951,19 +951,20 @@ class Response(object):
         self.output_status = ntob(str(code), 'ascii') + \
             b' ' + headers.encode_header_item(reason)
 
-        if self.stream:
+        if code < 200 or code in (204, 205, 304):
+            # "All 1xx (informational), 204 (no content),
+            # and 304 (not modified) responses MUST NOT
+            # include a message-body." That holds for a streamed
+            # response as well, so this test comes first.
+            dict.pop(headers, 'Content-Length', None)
+            self._flush_body()
+            self.body = b''
+        elif self.stream:
             # The upshot: wsgiserver will chunk the response if
             # you pop Content-Length (or set it explicitly to None).
             # Note that lib.static sets C-L to the file's st_size.
             if dict.get(headers, 'Content-Length') is None:
                 dict.pop(headers, 'Content-Length', None)
-        elif code < 200 or code in (204, 205, 304):
-            # "All 1xx (informational), 204 (no content),
-            # and 304 (not modified) responses MUST NOT
-            # include a message-body."
-            dict.pop(headers, 'Content-Length', None)
-            self._flush_body()
-            self.body = b''
         else:
             # Responses which are not streamed should have a Content-Length,
             # but allow user code to set Content-Length if desired.
